@@ -65,14 +65,15 @@ pub fn evaluate(o: &RunOutput) -> Verdict {
     v.harness_errors = app.harness_errors.clone();
     v.faults_fired = o.net.fired.iter().filter(|(k, _)| **k != "path_mtu_drop").map(|(_, n)| *n).sum();
     let first_fault = o.net.first_fault_ns;
-    let tf_ns = plan.faults_end_us * 1000;
+    // the network was de facto healthy after the last fault that actually fired
+    let tf_ns = o.net.last_fault_ns.unwrap_or(0).min(plan.faults_end_us * 1000);
     let max_idle_ns = plan.s2n.idle_timeout_ms.max(plan.quiche.idle_timeout_ms) * 1_000_000;
 
     // ---- both sides' view of how the connection ended
-    let s2n_closed = o.obs.closed.first();
-    if o.obs.closed.len() > 1 {
-        v.harness_errors.push(format!("s2n endpoint had {} connections", o.obs.closed.len()));
-    }
+    // the connection under test is the first one the endpoint created; a late duplicate of the
+    // client's first Initial can make an s2n-quic server create a second, short-lived one after
+    // the first is gone (it never completes: quiche's connection no longer exists)
+    let s2n_closed = o.obs.closed.iter().min_by_key(|c| c.id);
     let q = &app.q;
     let planned = plan.close_code;
 
@@ -80,8 +81,26 @@ pub fn evaluate(o: &RunOutput) -> Verdict {
     // APPLICATION_ERROR (0xc) is what RFC 9000 10.2.3 requires when the application closes
     // while only Initial/Handshake keys may be used; NO_ERROR (0x0) is not an error.
     let benign = |code: u64| code == 0x0 || code == 0xc;
+    // Known limitation of quiche 0.29 (cid.rs, BoundedNonEmptyConnectionIdVecDeque::remove):
+    // a RETIRE_CONNECTION_ID for an id that is already retired is answered with
+    // OutOfIdentifiers -> PROTOCOL_VIOLATION when exactly one source id is left, although a
+    // retransmitted / duplicated frame must be a no-op (RFC 9000 13.3: RETIRE_CONNECTION_ID is
+    // retransmitted until acknowledged).  Only recognised when there is evidence that s2n-quic's
+    // frame was indeed repeated: it sent the frame at least twice and a duplicating/reordering
+    // fault fired or s2n-quic declared a packet lost (spurious retransmission).
+    let repeated_retire = o.obs.counts.get("tx_retire_connection_id").copied().unwrap_or(0) >= 2
+        && (o.net.fired.get("dup").copied().unwrap_or(0) > 0
+            || o.net.fired.get("reorder").copied().unwrap_or(0) > 0
+            || o.obs.counts.get("s2n_packet_lost").copied().unwrap_or(0) > 0);
+    let quiche_dup_retire_limitation = q.recv_errs.contains_key("OutOfIdentifiers")
+        && q.local_error.as_ref().map_or(false, |e| !e.is_app && e.code == 0xa)
+        && repeated_retire;
+    if quiche_dup_retire_limitation {
+        v.probes.insert("quiche_rejects_repeated_retire_connection_id", 1);
+        v.excused = Some("peer_limitation:quiche_out_of_identifiers_on_repeated_retire_connection_id".into());
+    }
     if let Some(e) = &q.local_error {
-        if !e.is_app && !benign(e.code) {
+        if !e.is_app && !benign(e.code) && !quiche_dup_retire_limitation {
             v.violations.push(viol(
                 "c07.transport_error.by_quiche",
                 format!("quiche_local:{}", transport_code_name(e.code)),
@@ -110,7 +129,7 @@ pub fn evaluate(o: &RunOutput) -> Verdict {
         }
         // a transport error received by s2n that quiche does not report as its own (quiche
         // snapshot missing) is still a transport error on the wire
-        if c.kind == CloseKind::Transport && !c.local && !benign(c.code.unwrap_or(0)) && q.local_error.is_none() {
+        if c.kind == CloseKind::Transport && !c.local && !benign(c.code.unwrap_or(0)) && q.local_error.is_none() && !quiche_dup_retire_limitation {
             v.violations.push(viol(
                 "c07.transport_error.by_quiche",
                 format!("quiche_local:{}", transport_code_name(c.code.unwrap_or(0))),
@@ -128,16 +147,19 @@ pub fn evaluate(o: &RunOutput) -> Verdict {
             ));
         }
     }
-    for e in &o.obs.attempt_failed {
-        if e.contains("Transport") && !e.contains("code: NO_ERROR") {
-            // connection attempts that fail before a connection context exists
-            let local = e.contains("initiator: Local");
-            if local {
+    // A connection attempt that s2n-quic aborts with a transport error before a connection
+    // context exists.  Stray packets that arrive after the connection is gone (a late duplicate
+    // of the client's Initial) are reported through the same event and are harmless, so this
+    // only counts when s2n-quic never had a connection at all.
+    if app.s2n.t_connected_ns.is_none() && o.obs.closed.is_empty() && plan.role == Role::S2nServer {
+        for e in &o.obs.attempt_failed {
+            if e.contains("Transport") && e.contains("initiator: Local") && !e.contains("NO_ERROR") {
                 v.violations.push(viol(
                     "c07.transport_error.by_s2n",
                     "s2n_local:attempt_failed".into(),
-                    format!("s2n-quic refused/failed a connection attempt with a transport error: {e}"),
+                    format!("s2n-quic aborted quiche's connection attempt with a transport error and never accepted a connection: {e}"),
                 ));
+                break;
             }
         }
     }
@@ -193,20 +215,53 @@ pub fn evaluate(o: &RunOutput) -> Verdict {
         }
     }
 
+    // ---- datagram budget exceeded: the network was cut on purpose; only the oracles above
+    // (transport errors seen so far, wrong data, panics) keep their meaning
+    if o.net.overloaded_at_ns.is_some() {
+        v.slow = true;
+        v.trace_hash = trace_hash(o);
+        return v;
+    }
+
     // ---- 4. hang: tasks parked at the virtual-time cap
     let cap_ns = plan.time_cap_us * 1000;
     if !app.capped.is_empty() && o.panic.is_none() {
         // progress during the last 60 virtual seconds before the cap = slow, not hung
+        // quiche gave up (idle timeout) after faults while s2n-quic is still alive at the cap:
+        // s2n-quic's effective idle timeout is max(idle, 3 x PTO x 2^backoff) with the peer's
+        // max_ack_delay inside the PTO (RFC 9000 10.1 asks for >= 3 x current PTO), which after
+        // an outage with many consecutive PTOs can be hours.  The failure itself is excusable
+        // (faults); the lingering is reported as an observation, not as a C07 violation.
+        let q_death = q.t_closed_ns.unwrap_or(u64::MAX);
+        let peer_gave_up_after_faults = q.is_closed
+            && q.timed_out
+            && first_fault.map_or(false, |f| f <= q_death)
+            && q_death <= 8 * tf_ns + 2 * max_idle_ns + 5_000_000_000;
         if app.last_progress_ns + 60_000_000_000 >= cap_ns {
             v.slow = true;
+        } else if peer_gave_up_after_faults {
+            v.probes.insert("s2n_lingers_after_peer_idle_timeout", 1);
+            v.excused = Some(format!(
+                "peer_timed_out_s2n_lingers (first fault {} ms, quiche idle timeout at {} ms, s2n max PTO count {})",
+                first_fault.unwrap_or(0) / 1_000_000,
+                q_death / 1_000_000,
+                o.obs.max_pto_count
+            ));
         } else {
             let mut pend: Vec<String> = app.pending.iter().map(|(k, (w, t))| format!("{k}:{w}@{}ms", t / 1_000_000)).collect();
             pend.sort();
+            // cause signature: datagrams larger than s2n-quic's receive buffer are truncated by
+            // the IO layer and fail decryption (s2n-quic never advertises max_udp_payload_size)
+            let undecryptable = o.obs.dropped.get("packet:DecryptionFailed").copied().unwrap_or(0);
+            let oversize = plan.quiche.max_send_udp > plan.s2n.max_mtu as u64;
+            let sig = if undecryptable >= 3 && oversize { "hang:oversize_datagrams_to_s2n" } else { "hang" };
             v.violations.push(viol(
                 "c07.hang",
-                "hang".into(),
+                sig.into(),
                 format!(
-                    "tasks still parked at the virtual-time cap ({} s; network healthy since {} ms; last application progress at {} ms): {:?}; pending s2n operations {:?}; quiche established {} closed {}",
+                    "[s2n dropped {undecryptable} undecryptable packets; quiche max_send_udp_payload_size {} vs s2n receive buffer {}] tasks still parked at the virtual-time cap ({} s; network healthy since {} ms; last application progress at {} ms): {:?}; pending s2n operations {:?}; quiche established {} closed {}",
+                    plan.quiche.max_send_udp,
+                    plan.s2n.max_mtu,
                     cap_ns / 1_000_000_000,
                     tf_ns / 1_000_000,
                     app.last_progress_ns / 1_000_000,
@@ -271,6 +326,14 @@ pub fn evaluate(o: &RunOutput) -> Verdict {
                         "close:s2n_did_not_close".into(),
                         format!("s2n was to close with application code {planned}: close called {:?}, connection_closed {:?}", app.s2n.t_close_called_ns, s2n_closed.map(|c| c.text.clone())),
                     ));
+                } else if !app_close_seen_by_quiche && o.obs.counts.get("tx_connection_close_long_header").copied().unwrap_or(0) > 0 && q.timed_out {
+                    // s2n-quic closed while it still held Handshake keys and (RFC 9000 10.2.3)
+                    // sent CONNECTION_CLOSE in a Handshake packet coalesced with a 1-RTT packet.
+                    // quiche 0.29 drops the rest of a datagram after a packet it cannot decrypt
+                    // (it has discarded its Handshake keys; RFC 9000 12.2 asks for the remaining
+                    // packets to be processed) and idles out: a limitation of the peer, not of
+                    // s2n-quic. Counted as a probe, never as a violation.
+                    v.probes.insert("close_in_coalesced_handshake_packet_ignored_by_quiche", 1);
                 } else if !app_close_seen_by_quiche {
                     short.push((
                         "c07.close",
@@ -301,6 +364,9 @@ pub fn evaluate(o: &RunOutput) -> Verdict {
         }
     }
 
+    if quiche_dup_retire_limitation {
+        short.clear();
+    }
     if !short.is_empty() && app.capped.is_empty() && o.panic.is_none() {
         // deaths: instants at which either side gave up (not a clean / application close)
         let mut deaths: Vec<u64> = vec![];
@@ -320,6 +386,15 @@ pub fn evaluate(o: &RunOutput) -> Verdict {
         let faulted_before = |t: u64| first_fault.map_or(false, |f| f <= t);
         let handshake_done_both = q.established && s2n_connected;
         let any_transport = v.violations.iter().any(|x| x.oracle.starts_with("c07.transport_error"));
+        let only_close = short.iter().all(|s| s.0 == "c07.close");
+        let t_close = match plan.close_by {
+            Side::S2n => app.s2n.t_close_called_ns,
+            Side::Quiche => q.t_close_called_ns,
+        };
+        let close_hit_by_fault = match (t_close, o.net.last_fault_ns) {
+            (Some(tc), Some(lf)) => lf >= tc,
+            _ => false,
+        };
         let excused = match first_death {
             _ if v.faults_fired == 0 => false,
             None => {
@@ -328,8 +403,12 @@ pub fn evaluate(o: &RunOutput) -> Verdict {
                 short.iter().all(|s| s.0 == "c07.close") && first_fault.is_some()
             }
             Some(t) if !faulted_before(t) => false,
-            // backed-off probe timers may keep a healthy path silent for up to twice the outage
-            Some(t) if t <= 3 * tf_ns + max_idle_ns + 5_000_000_000 => true,
+            // the planned close (or a retransmission of it) was itself hit by a fault: the other
+            // side can only find out through its own idle timer, whenever that fires
+            Some(_) if only_close && close_hit_by_fault => true,
+            // backed-off probe timers may keep a healthy path silent for up to twice the outage,
+            // and s2n-quic's idle period is max(idle, 3 x PTO x 2^backoff) (see O-C07-2)
+            Some(t) if t <= 8 * tf_ns + 2 * max_idle_ns + 5_000_000_000 => true,
             Some(_) if !handshake_done_both => true,
             Some(_) => false,
         };
@@ -400,6 +479,7 @@ pub fn evaluate(o: &RunOutput) -> Verdict {
     p("closed_by_s2n", (plan.close_by == Side::S2n && app.s2n.t_close_called_ns.is_some()) as u64);
     p("closed_by_quiche", (plan.close_by == Side::Quiche && q.t_close_called_ns.is_some()) as u64);
     p("all_streams_complete", v.complete as u64);
+    p("s2n_second_connection_from_late_duplicate_initial", (o.obs.closed.len() > 1) as u64);
 
     v.nontrivial = v.faults_fired > 0 && app.bytes_after_fault > 0;
     v.trace_hash = trace_hash(o);
